@@ -27,16 +27,16 @@ fn work_dir() -> String {
 pub fn planned_runs(prop: &str, tier: &str) -> u64 {
     let quick = match prop {
         "C02" => 1_200_000,
-        "C03" => 1_000_000,
-        "C05" => 800_000,
-        "C06" => 1_200_000,
-        "C07" => 500_000,
-        "C10" => 250_000,
-        "C11" => 1_500_000,
+        "C03" => 1_500_000,
+        "C05" => 1_600_000,
+        "C06" => 1_500_000,
+        "C07" => 800_000,
+        "C10" => 300_000,
+        "C11" => 2_000_000,
         "C14" => 3_000_000,
-        "C15" => 3_000_000,
-        "C18" => 1_500_000,
-        "C19" => 250_000,
+        "C15" => 4_000_000,
+        "C18" => 2_000_000,
+        "C19" => 500_000,
         _ => 10_000,
     };
     if tier == "thorough" {
